@@ -42,7 +42,7 @@ def build(src, returns_none):
         for i, bb in enumerate(cfg.bbs):
             assert bb.idx == i
             blocks.append({
-                "stmts": [pyast.from_ast_simple(s) for s in bb.statements],
+                "stmts": [m for s in bb.statements for m in pyast.from_ast_simple_multi(s)],
                 "pred": None if bb.branch_pred is None else pyast.from_ast_expr(bb.branch_pred),
                 "succs": [idx[id(s)] for s in bb.successors],
                 "dummy": [idx[id(s)] for s in bb.dummy_successors],
